@@ -210,8 +210,7 @@ def run(chk, ctx):
                                rel=rel, node=f)
         # ---- Multistage-style label tables: counts reported are counts of the label tuple
         for r in runs:
-            uses_labels = any(isinstance(a, Val) and a.kind == "label"
-                              for rec in r.interp.yields for a in rec.args)
+            uses_labels = bool(r.interp.label_atoms)
             if not uses_labels:
                 continue
             links = count_links(repo, cname)
@@ -225,12 +224,17 @@ def run(chk, ctx):
                 for st, cfg in split:
                     if st.enum_is("self._max_n", "None") == "yes":
                         continue
-                    st2 = st.copy()
-                    st2.add_ineq(Lin.sym("self." + links[t]) - ONE)
-                    rel, c, f, res = evaluate(repo, cname, t, st2)
-                    ok = res == {("value", "True")}
-                    definite = ("value", "True") not in res and ("value", "?") not in res
-                    chk.decide("C11.COVER", cons, True if ok else (False if definite else None),
-                               f"self.{links[t]} = count of {t} in the label tuple; with one such label the query gives {sorted(res)}",
-                               rel=rel, node=f)
+                    for cell in ("==1", ">=2"):
+                        st2 = st.copy()
+                        a = Lin.sym("self." + links[t])
+                        if cell == "==1":
+                            st2.add_eq(a - ONE)
+                        else:
+                            st2.add_ineq(a - Lin.const(2))
+                        rel, c, f, res = evaluate(repo, cname, t, st2)
+                        ok = res == {("value", "True")}
+                        definite = ("value", "True") not in res and ("value", "?") not in res
+                        chk.decide("C11.COVER", cons + f"@count{cell}", True if ok else (False if definite else None),
+                                   f"self.{links[t]} = count of {t} in the label tuple; with count {cell} the query gives {sorted(res)}",
+                                   rel=rel, node=f)
             break
